@@ -903,8 +903,12 @@ func (d *driver) rpcCase(ci int, r *Rng, w *world, views [][]txView, canon strin
 			}
 			var logs2 [][]*ethtypes.Log
 			guard("logs-by-hash", func() { logs2, _ = be.GetLogs(bhash) })
-			if fmt.Sprint(len(logs2)) != fmt.Sprint(len(logs)) {
-				hit("logs-by-hash-vs-number", "logs by block hash and by height differ", where)
+			ok2 := len(logs2) == len(wantLogs)
+			for i := 0; ok2 && i < len(logs2); i++ {
+				ok2 = sameLogs(logs2[i], wantLogs[i].exp, wantLogs[i].v.Hash, uint64(hgt), uint64(wantLogs[i].ei))
+			}
+			if !ok2 {
+				hit("logs-by-hash", "block logs served by block hash differ from the logs of the consensus receipts", where)
 			}
 		}
 	}
